@@ -1,22 +1,52 @@
 import ribgen
 
 CONFIG = dict(
-    level_text="(in progress) Lean model of table/src/lib.rs (Table, Ord for RibEntry, evpn_type2_cmp, ecmp_paths) and "
-               "Attribute::as_path_length; the C15 reference checker (decision order written from the property text) is run as "
-               "oracle on the real Table's observations and the model is diffed against the real code on generated histories.",
-    level_note="Trusted: Lean kernel; hand-written model (checked by the correspondence stream only); harness glue.",
-    lean_modules=["Rbgp.Rib.SpecC15"],
-    theorems=[],
+    level_text="Kernel-checked Lean theorems about a model of table/src/lib.rs for ALL well-formed cases and ALL finite histories "
+               "of the twelve Table operations in both build profiles: route_stats (received / accepted per peer and family) equal "
+               "the recount of the RIB at every reachable state, Table::state equals the recount and no destination is empty, no "
+               "statistics subtraction ever underflows (no panic in debug, no wrap in release); for histories outside the two "
+               "recorded open findings (Case.PlainLimits) the per-session limit counter equals the recount of the peer's prefixes "
+               "while the session is in progress, never wraps, and an accepted new prefix never takes the peer above its maximum; "
+               "the partial master theorem: the C15 reference checker accepts every such model run; the full-strength statement "
+               "C15_full is stated and REFUTED for the model by a concrete witness (the open finding).  The model is tied to the "
+               "real code by running the real Table and the model on the same generated histories (debug and release) and diffing "
+               "complete observations; the reference checker is the oracle on the real observations.",
+    level_note="Trusted: Lean kernel; axioms propext/Classical.choice/Quot.sound; the hand-written model (checked only by the "
+               "correspondence stream); harness glue, in particular the emulation of the daemon's calling convention for purges "
+               "(prefix_counter = None, transcribed from daemon/src/table_manager.rs) next to purges that hand the counter over. "
+               "Interpretation: accepted = paths that passed import policy (the repository's documented Add-Path semantics), "
+               "received and limit counter = prefixes with >= 1 path of the peer. OPEN known findings: restarted session's fresh "
+               "counter vs inherited stale prefixes (mismatch, later underflow), purges without the live session's counter.",
+    lean_modules=["Rbgp.Rib.PropsC15"],
+    theorems=[
+        "Rbgp.Rib.PropsC15.check_run_ok_partial",
+        "Rbgp.Rib.PropsC15.not_C15_full",
+        "Rbgp.Rib.PropsC15.stats_eq_recount",
+        "Rbgp.Rib.PropsC15.state_eq_recount",
+        "Rbgp.Rib.PropsC15.no_underflow",
+        "Rbgp.Rib.PropsC15.limit_counter_eq_recount_partial",
+        "Rbgp.Rib.PropsC15.limit_enforced_partial",
+    ],
     harness=dict(kind="pt", bin="c15"),
     profiles=["debug", "release"], profile_in_case=True,
     n_quick=1500, n_thorough=120000, shards=12,
-    nontrivial_re=r"\(st ",
-    rule="histories over one Table: candidate paths from colliding attribute domains (LOCAL_PREF {90,100,110,absent}, AS_PATH "
-         "segment templates incl. AS_SET / confed / 300 hops, ORIGIN 0-2, five peer roles, 3 router-ids / ORIGINATOR_IDs, "
-         "CLUSTER_LIST of 0/1/2, LLGR_STALE / NO_LLGR communities, MAC mobility none/0/1 on EVPN type-2), arrival orders, "
-         "replace / remove / drop / restale / restale_llgr / purges / next-hop flips; distinct = distinct case line",
-    expect_tokens=[],
-    trusted_base=[], modelled_not_verified=[], assumptions=[],
+    # non-trivial = a limit was signalled, a counter is in use, or a purge / removal touched the statistics
+    nontrivial_re=r"limit|\(ctrs \(|\(stats \(\d+ \w+ 0 0\)",
+    rule="histories over one Table: sessions with prefix limits 0..3 or none (several peers sharing prefixes, a restarted session "
+         "of the same peer address), new / replacement / extra add-path inserts, filtered <-> unfiltered transitions, remove, "
+         "drop peer, stale / LLGR marking and the three purges (with the daemon's counter = None convention or with the live "
+         "session's counter), limit-exceeded inserts incl. of brand-new prefixes; plus structural mutations; distinct = distinct "
+         "case line",
+    expect_tokens=["limit", "(ctrs (", "(stats (", " 0 0)", "nochange", "(chs)", "(stale 0", "(llgr 0", "(state 0 0 0)",
+                   "(bad-case)"],
+    trusted_base=["model Rbgp/Rib/Model.lean of table/src/lib.rs",
+                  "harness/pt/src/rib.rs (shared with C02/C06): one AtomicU64 per (source, family) is handed to insert / remove "
+                  "iff the source declares a limit; purges get the counter named by the case (or None, as the daemon does)"],
+    modelled_not_verified=["hash-map iteration order", "u64 overflow of `+= 1` on the statistics (needs 2^64 operations)",
+                           "AtomicU64 memory ordering (single-threaded harness)"],
+    assumptions=["well-formed case (Case.WF): one family per Source, sources referred to by position",
+                 "the limit counter of a session is judged from its first use until its peer is dropped or re-marked stale "
+                 "(the daemon drops the counter with the session)"],
     claimed=False, na_reason="proofs in progress",
 )
 
